@@ -4,7 +4,7 @@
 From Coq Require Import ZArith Reals List Bool String.
 From Flocq Require Import Core.
 From VQ Require Import Num Model.Vec Model.Scalar Proofs.ScalarProofs Glue.ScalarGlue Glue.Pin_p_fsq_quantize Glue.Pin_k_fsq_offset.
-From VQ Require Import Model.Einops Model.Layout Glue.EinopsGlue.
+From VQ Require Import Model.Einops Model.Layout Glue.EinopsGlueBase Glue.EinopsGlueScalar.
 Import ListNotations.
 Open Scope R_scope.
 
@@ -180,7 +180,7 @@ Theorem C05_src_fsq_split :
           (n < e "n")%nat ->
           (c < e "c")%nat ->
           (d < e "d")%nat -> @rearr A p e (@of3 A X) [b; n; c; d] = @cb_split A (e "d") X b n c d).
-Proof. exact (@EinopsGlue.einops_fsq_split). Qed.
+Proof. exact (@EinopsGlueScalar.einops_fsq_split). Qed.
 Print Assumptions C05_src_fsq_split.
 
 (* implicit *)
@@ -193,7 +193,7 @@ Theorem C05_src_fsq_merge :
           (b < e "b")%nat ->
           (n < e "n")%nat ->
           (x < e "c" * e "d")%nat -> @rearr A p e (@of4 A Q) [b; n; x] = @cb_merge A (e "d") Q b n x).
-Proof. exact (@EinopsGlue.einops_fsq_merge). Qed.
+Proof. exact (@EinopsGlueScalar.einops_fsq_merge). Qed.
 Print Assumptions C05_src_fsq_merge.
 
 (* implicit *)
@@ -207,7 +207,7 @@ Theorem C05_src_lfq_split :
           (n < e "n")%nat ->
           (c < e "c")%nat ->
           (d < e "d")%nat -> @rearr A p e (@of3 A X) [b; n; c; d] = @cb_split A (e "d") X b n c d).
-Proof. exact (@EinopsGlue.einops_lfq_split). Qed.
+Proof. exact (@EinopsGlueScalar.einops_lfq_split). Qed.
 Print Assumptions C05_src_lfq_split.
 
 (* implicit *)
@@ -220,5 +220,5 @@ Theorem C05_src_lfq_merge :
           (b < e "b")%nat ->
           (n < e "n")%nat ->
           (x < e "c" * e "d")%nat -> @rearr A p e (@of4 A Q) [b; n; x] = @cb_merge A (e "d") Q b n x).
-Proof. exact (@EinopsGlue.einops_lfq_merge). Qed.
+Proof. exact (@EinopsGlueScalar.einops_lfq_merge). Qed.
 Print Assumptions C05_src_lfq_merge.
